@@ -45,7 +45,8 @@ F2_TEXT = ("desugar_add/desugar_subtract/desugar_multiply hoist a contraction in
            "although some additive term below lacks it; that term is summed size(index) times "
            "(result == today's desugared tree's denotation != spec)")
 F3_TEXT = ("integer literals are lowered to int32 arithmetic (to_ir_integer emits IntegerLiteral): an "
-           "all-integer-literal subexpression (possibly arising after exhausting tensors) or a literal leaves "
+           "all-integer-literal subexpression (possibly arising after exhausting tensors; on the C back end also "
+           "after the printer drops the parentheses of a right-nested chain, K-C06-1) or a literal leaves "
            "int32; the same assignment with float literals is correct")
 
 MAX_REPORTED = 20
@@ -719,7 +720,7 @@ def judge_all(chk, cases, results, crashes, impl_is, workers, tag, graph_of=None
                 chk.sample({"known": K_F2, "assignment": case["assignment"], "formats": case["formats"],
                             "where": S.f2_terms(a), "detail": rec["detail"]})
             continue
-        if S.f3_shape(a):
+        if S.f3_shape(a, case.get("backend", "llvm")):
             t = dict(case)
             t["id"] = 10_000_000 + case["id"]
             t["assignment"] = S.show_assignment(S.float_twin(a))
@@ -850,11 +851,11 @@ def run(chk):
 
     rng = chk.rng
     # ---------------------------------------------------------------- problems
-    n_search = 300 if thorough else 110
+    n_search = 220 if thorough else 110
     search = search_assignments(rng, n_search)
     templates = list(sweep.TEMPLATES)
     problems = []
-    cap_t, cap_s = (24, 6) if thorough else (7, 3)
+    cap_t, cap_s = (20, 6) if thorough else (7, 3)
     ns, ni = (3, 2) if thorough else (2, 2)
     for t in templates:
         problems.append({"assignment": t, "cap": cap_t, "nsizes": ns, "ninputs": ni, "tag": "template"})
